@@ -29,7 +29,7 @@ OptsProto == <<
     { F(<<"_x">>, "b_templ.go", "junk", 2) } >>
 TreesProto == PickB(OptsProto, Len(OptsProto))
 
-\* skip-rule universe: every directory path of depth <= 2 over the five names, each alone (PerDir), and one forest
+\* skip-rule universe: every directory path of depth <= 2 over the five basic names, each alone (PerDir), and one forest
 \* (root, every name at depth 1, every name below and above a plain directory) with a template, a stale sibling,
 \* an orphan and an unrelated file in every directory
 DirNames == {"d", "vendor", "node_modules", ".x", "_x"}
@@ -38,8 +38,17 @@ ForestPaths == { << >> } \cup { <<a>> : a \in DirNames } \cup { <<"d", b>> : b \
 Forest == UNION { { F(p, "a.templ", "good", 1), F(p, "a_templ.go", "junk", 0), F(p, "b_templ.go", "junk", 2), F(p, "n.txt", "text", 1) } : p \in ForestPaths }
 \* one directory at a time, with a failing file in the root
 PerDir == { { F(p, "a.templ", "good", 1), F(p, "b_templ.go", "junk", 2), F(R, "b.templ", "unparsable", 1) } : p \in DirPaths }
-TreesSkip == PerDir
-TreesForest == { Forest }
+\* near misses of the skip rule (Generate.tla: AllDirNames): none of them is skipped, at depth 1, below a plain and
+\* below a skipped parent (where they stay skipped), above a plain child; skipped names below a near-miss parent
+NearMiss == AllDirNames \ DirNames
+NearPaths == { <<a>> : a \in NearMiss } \cup { <<"d", a>> : a \in NearMiss } \cup { <<"vendor", a>> : a \in NearMiss }
+             \cup { <<a, "d">> : a \in NearMiss } \cup { <<"multivendor", b>> : b \in DirNames \ {"d"} }
+PerDirNear == { { F(p, "a.templ", "good", 1), F(p, "b_templ.go", "junk", 2), F(R, "b.templ", "unparsable", 1) } : p \in NearPaths }
+ForestNearPaths == { << >> } \cup { <<a>> : a \in NearMiss } \cup { <<"d", a>> : a \in NearMiss } \cup { <<a, "d">> : a \in NearMiss }
+                   \cup { <<".x", a>> : a \in NearMiss }
+ForestNear == UNION { { F(p, "a.templ", "good", 1), F(p, "a_templ.go", "junk", 0), F(p, "b_templ.go", "junk", 2), F(p, "n.txt", "text", 1) } : p \in ForestNearPaths }
+TreesSkip == PerDir \cup PerDirNear
+TreesForest == { Forest, ForestNear }
 
 \* a tree that makes every negative configuration fail: two files generated concurrently, one failing file
 TreesNeg == { { F(R, "a.templ", "good", 1), F(R, "b.templ", "good", 1), F(<<"d">>, "a.templ", "badgo", 1) } }
